@@ -325,6 +325,13 @@ func (fr *Frame) bitsWriterIntrinsic(st *State, name string, args []Value, in ss
 		r.assume(st, "(bvsle #x0000000000000000 "+k+")")
 		v, err := fr.bytesWrite(st, w, s, k, p.T, in)
 		return v, true, err
+	case "(*astikit.BitsWriter).SetWriteCallback":
+		w, ok := args[0].(*Sc)
+		cb, ok2 := args[1].(*Sc)
+		if !ok || !ok2 {
+			return nil, true, r.unsupported("SetWriteCallback arguments")
+		}
+		return packResults(nil), true, fr.setWriteCallback(st, w, cb, in)
 	case "astikit.NewBitsWriter":
 		r.assumed["model:astikit.NewBitsWriter"] = true
 		o, ok := args[0].(*StructV)
@@ -362,4 +369,172 @@ func (fr *Frame) bitsWriterIntrinsic(st *State, name string, args []Value, in ss
 		return &Sc{T: ref, K: kRef, W: 32, Ty: pt}, true, nil
 	}
 	return nil, false, nil
+}
+
+// ---------------------------------------------------------------------------
+// Write callback (BitsWriter.SetWriteCallback). astikit calls the installed function with every byte the
+// sink has accepted, in order (binary.go: write / flushBsCache). Model (exact mode only): once a closure of
+// the function under verification is installed on writer w at sink position n0, then after every operation
+// that advances the sink of w the closure's captured cells hold what the closure computes from their values
+// at installation and the bytes n0..now of the sink - the closure is applied ONCE to all bytes emitted since
+// installation instead of once per byte. The two agree for a closure that is a fold over the bytes
+// (f(f(c,x),y) = f(c,x++y)); for the only callback in the repository (writePSISection: the running CRC)
+// that is lemma crcSplit (proved under C10), given updateCRC32's contract. The closure body itself is
+// executed symbolically (inlined), not assumed.
+type cbRec struct {
+	w    *Sc
+	clo  *Sc
+	n0   string
+	init []Value
+}
+
+func (fr *Frame) sinkOf(st *State, w *Sc) (*IfaceV, error) {
+	r := fr.run
+	stT, u := r.bwStruct(w.Ty)
+	fW := fieldByName(u, "w")
+	if fW == nil {
+		return nil, r.unsupported("BitsWriter layout changed")
+	}
+	v, err := r.loadLeafs(st, fieldComp(stT, fW), w.T, fW.Type())
+	if err != nil {
+		return nil, err
+	}
+	s, ok := v.(*IfaceV)
+	if !ok {
+		return nil, r.unsupported("BitsWriter sink")
+	}
+	return s, nil
+}
+
+func (fr *Frame) setWriteCallback(st *State, w *Sc, cb *Sc, in ssa.Instruction) error {
+	r := fr.run
+	stT, u := r.bwStruct(w.Ty)
+	f := fieldByName(u, "writeCb")
+	if f == nil {
+		return r.unsupported("BitsWriter layout changed (writeCb)")
+	}
+	if in != nil {
+		fr.nilCheck(st, w, in)
+	}
+	if err := r.storeLeafs(st, fieldComp(stT, f), w.T, f.Type(), cb); err != nil {
+		return err
+	}
+	if cb.Fn == nil || r.faults {
+		return nil
+	}
+	r.assumed["model:astikit.BitsWriter write callback (called with every byte the sink accepted, in order; applied once to the bytes since installation, which is the same for a fold - lemma crcSplit)"] = true
+	if r.cbs == nil {
+		r.cbs = map[string]*cbRec{}
+	}
+	sink, err := fr.sinkOf(st, w)
+	if err != nil {
+		return err
+	}
+	rec := &cbRec{w: w, clo: cb}
+	rec.n0 = r.ctx.define("cb.n0", sBV(64), sel(r.heap.get(st, compSinkN, sortSinkN), sink.Ref))
+	for _, b := range cb.Fn.Bind {
+		if a, ok := b.(*AddrV); ok && a.Kind != "arr" {
+			v, err := r.load(st, a)
+			if err != nil {
+				return err
+			}
+			rec.init = append(rec.init, v)
+		} else {
+			rec.init = append(rec.init, nil)
+		}
+	}
+	r.cbs[cb.T] = rec
+	r.cbOrder = append(r.cbOrder, cb.T)
+	return nil
+}
+
+// cbBefore records, for every installed callback, how many bytes its writer's sink holds.
+func (fr *Frame) cbBefore(st *State) []string {
+	r := fr.run
+	if len(r.cbs) == 0 || r.inCb || r.faults {
+		return nil
+	}
+	out := make([]string, 0, len(r.cbOrder))
+	for _, k := range r.cbOrder {
+		rec := r.cbs[k]
+		sink, err := fr.sinkOf(st, rec.w)
+		if err != nil {
+			out = append(out, "")
+			continue
+		}
+		out = append(out, sel(r.heap.get(st, compSinkN, sortSinkN), sink.Ref))
+	}
+	return out
+}
+
+// cbAfter applies the installed callbacks whose sink has advanced during the call just made.
+func (fr *Frame) cbAfter(st *State, before []string) error {
+	r := fr.run
+	if before == nil || r.inCb {
+		return nil
+	}
+	for i, k := range r.cbOrder {
+		if i >= len(before) {
+			break
+		}
+		rec := r.cbs[k]
+		sink, err := fr.sinkOf(st, rec.w)
+		if err != nil {
+			return err
+		}
+		now := sel(r.heap.get(st, compSinkN, sortSinkN), sink.Ref)
+		if now == before[i] {
+			continue
+		}
+		stT, u := r.bwStruct(rec.w.Ty)
+		f := fieldByName(u, "writeCb")
+		cur, err := r.loadLeafs(st, fieldComp(stT, f), rec.w.T, f.Type())
+		if err != nil {
+			return err
+		}
+		cond := eq(cur.(*Sc).T, rec.clo.T)
+		if cond == "false" {
+			continue
+		}
+		run, skip := st, (*State)(nil)
+		if cond != "true" {
+			run = st.clone()
+			r.assume(run, cond)
+			skip = st.clone()
+			r.assume(skip, not(cond))
+		}
+		for j, b := range rec.clo.Fn.Bind {
+			if a, ok := b.(*AddrV); ok && j < len(rec.init) && rec.init[j] != nil {
+				if err := r.store(run, a, rec.init[j]); err != nil {
+					return err
+				}
+			}
+		}
+		fn := rec.clo.Fn.Fn.(*ssa.Function)
+		if len(fn.Params) != 1 {
+			return r.unsupported("write callback with %d parameters", len(fn.Params))
+		}
+		sl, ok := fn.Params[0].Type().Underlying().(*types.Slice)
+		if !ok {
+			return r.unsupported("write callback parameter")
+		}
+		ref := r.newRef(run)
+		comp := elemComp(sl.Elem())
+		srt := sArr(sRef, sArr(sBV(64), sBV(8)))
+		hM := r.heap.get(run, comp, srt)
+		r.heap.set(run, comp, srt, sto(hM, ref, sel(r.heap.get(run, compSinkData, sortSinkData), sink.Ref)), ref)
+		ln := r.ctx.define("cb.len", sBV(64), "(bvsub "+now+" "+rec.n0+")")
+		arg := &SliceV{Base: ref, Off: rec.n0, Len: ln, Cap: ln, Elem: sl.Elem()}
+		r.inCb = true
+		_, err = fr.callValue(run, rec.clo, rec.clo.Ty, []Value{arg}, nil)
+		r.inCb = false
+		if err != nil {
+			return err
+		}
+		if skip != nil {
+			m := r.heap.merge([]*State{run, skip})
+			*st = *m
+		}
+	}
+	return nil
 }
